@@ -140,7 +140,9 @@ def evaluate(case, out):
             contests_in_log["340"] = decoy
             contests_in_log["1000"] = dict(decoy, assertion_json=list(reversed(decoy_js)))
             out.cls("several-contests-in-log")
-        auditfile = {"Audit": {"seed": 1}, "contests": contests_in_log}
+        import json as _json
+
+        auditfile = _json.loads(_json.dumps({"Audit": {"seed": 1}, "contests": contests_in_log}))   # as read from the log file
         candfile = {"List": [{"Id": int(c), "Description": f"cand {c}"} for c in cands]}
         try:
             with contextlib.redirect_stdout(io.StringIO()):
